@@ -31,20 +31,24 @@ pub fn enc_tok(s: &str) -> String { enc(s).replace(' ', "\\s") }
 #[derive(Clone, Debug)]
 pub enum Block {
     Line(String),
-    Loop { var: String, start: i64, end: i64, incl: bool, body: Vec<Block> },
+    /// `svar`/`evar`: the bound is the placeholder `{name}` of an enclosing loop instead of the literal
+    /// (`evar` with `incl`: the header reads `..={name}`, i.e. the exclusive end is the value + 1)
+    Loop { var: String, start: i64, end: i64, incl: bool, svar: Option<String>, evar: Option<String>, body: Vec<Block> },
 }
 
-pub fn header(var: &str, start: i64, end: i64, incl: bool) -> String {
-    if incl { format!("for {} in {}..={}:", var, start, end - 1) } else { format!("for {} in {}..{}:", var, start, end) }
+pub fn header(var: &str, start: i64, end: i64, incl: bool, svar: &Option<String>, evar: &Option<String>) -> String {
+    let s = match svar { Some(x) => format!("{{{}}}", x), None => start.to_string() };
+    let e = match evar { Some(x) => format!("{{{}}}", x), None => if incl { (end - 1).to_string() } else { end.to_string() } };
+    format!("for {} in {}..{}{}:", var, s, if incl { "=" } else { "" }, e)
 }
 
 pub fn render(unit: usize, depth: usize, bs: &[Block], out: &mut String) {
     for b in bs {
         match b {
             Block::Line(t) => { out.push_str(&" ".repeat(unit * depth)); out.push_str(t); out.push('\n'); }
-            Block::Loop { var, start, end, incl, body } => {
+            Block::Loop { var, start, end, incl, svar, evar, body } => {
                 out.push_str(&" ".repeat(unit * depth));
-                out.push_str(&header(var, *start, *end, *incl));
+                out.push_str(&header(var, *start, *end, *incl, svar, evar));
                 out.push('\n');
                 render(unit, depth + 1, body, out);
             }
@@ -62,8 +66,12 @@ pub fn hand(env: &mut Vec<(String, i64)>, bs: &[Block], out: &mut String) {
                 out.push_str(&s);
                 out.push('\n');
             }
-            Block::Loop { var, start, end, body, .. } => {
-                for k in *start..*end {
+            Block::Loop { var, start, end, incl, svar, evar, body } => {
+                // a placeholder bound takes the value of the outermost enclosing loop of that name
+                let val = |x: &String| env.iter().find(|(v, _)| v == x).map(|(_, k)| *k).unwrap_or(0);
+                let s0 = svar.as_ref().map(&val).unwrap_or(*start);
+                let e0 = evar.as_ref().map(|x| val(x) + if *incl { 1 } else { 0 }).unwrap_or(*end);
+                for k in s0..e0 {
                     env.push((var.clone(), k));
                     hand(env, body, out);
                     env.pop();
@@ -77,8 +85,10 @@ pub fn tokens(bs: &[Block], out: &mut Vec<String>) {
     for b in bs {
         match b {
             Block::Line(t) => out.push(format!("L:{}", enc_tok(t))),
-            Block::Loop { var, start, end, incl, body } => {
-                out.push(format!("F:{}:{}:{}:{}", enc_tok(var), start, end, if *incl { "i" } else { "x" }));
+            Block::Loop { var, start, end, incl, svar, evar, body } => {
+                let s = match svar { Some(x) => format!("{{{}}}", x), None => start.to_string() };
+                let e = match evar { Some(x) => format!("{{{}}}", x), None => end.to_string() };
+                out.push(format!("F:{}:{}:{}:{}", enc_tok(var), s, e, if *incl { "i" } else { "x" }));
                 tokens(body, out);
                 out.push("E".to_string());
             }
@@ -185,15 +195,26 @@ fn gen_blocks(ctx: &mut Ctx, depth: usize, max_depth: usize, vars: &mut Vec<Stri
         if depth < max_depth && ctx.rng.chance(if top { 3 } else { 2 }, 4) {
             let var = if !vars.is_empty() && ctx.rng.chance(1, 12) { vars[0].trim_start_matches('-').to_string() } else { VARS[(depth + ctx.rng.below(2) as usize * 3) % VARS.len()].to_string() };
             let start = if ctx.rng.chance(1, 5) { ctx.rng.range(-3, -1) } else { ctx.rng.range(0, 5) };
-            let len = ctx.rng.range(0, 6);
+            // ranges of length 0-6, sometimes running backwards (no copies)
+            let len = if ctx.rng.chance(1, 8) { ctx.count("loop.reversed"); -ctx.rng.range(1, 3) } else { ctx.rng.range(0, 6) };
             let incl = ctx.rng.chance(1, 3);
+            // "triangular" nests: a bound of an inner loop is the placeholder of an enclosing loop
+            let (mut svar, mut evar) = (None, None);
+            if !vars.is_empty() && ctx.rng.chance(1, 4) {
+                let outer = ctx.rng.pick(vars).clone();
+                if outer.trim_start_matches('-') != var {
+                    if ctx.rng.chance(2, 3) { evar = Some(outer.trim_start_matches('-').to_string()); ctx.count("loop.triangular.end"); }
+                    else { svar = Some(outer.trim_start_matches('-').to_string()); ctx.count("loop.triangular.start"); }
+                }
+            }
+            let neg_outer = svar.iter().chain(evar.iter()).any(|x| vars.iter().any(|v| v.starts_with('-') && v.trim_start_matches('-') == x));
             ctx.count(&format!("loop.depth{}.len{}", depth + 1, len));
             if incl { ctx.count("loop.inclusive"); }
             if vars.iter().any(|v| v.trim_start_matches('-') == var) { ctx.count("loop.shadowing"); }
-            vars.push(if start < 0 { format!("-{}", var) } else { var.clone() });
+            vars.push(if start < 0 || neg_outer { format!("-{}", var) } else { var.clone() });
             let body = gen_blocks(ctx, depth + 1, max_depth, vars, n, false);
             vars.pop();
-            out.push(Block::Loop { var, start, end: start + len, incl, body });
+            out.push(Block::Loop { var, start, end: start + len, incl, svar, evar, body });
         } else {
             for l in gen_decl(ctx, vars, n) { out.push(Block::Line(l)); }
         }
@@ -255,10 +276,10 @@ fn exhaustive_small(ctx: &mut Ctx) {
     let mut inner: Vec<Block> = Vec::new();
     for &(s, e) in &ranges {
         for a in 0..2 {
-            inner.push(Block::Loop { var: "j".into(), start: s, end: e, incl: false, body: leaf(a, "x", 2) });
+            inner.push(Block::Loop { var: "j".into(), start: s, end: e, incl: false, svar: None, evar: None, body: leaf(a, "x", 2) });
             for b in 0..2 {
                 let mut body = leaf(a, "x", 2); body.extend(leaf(b, "y", 2));
-                inner.push(Block::Loop { var: "j".into(), start: s, end: e, incl: false, body });
+                inner.push(Block::Loop { var: "j".into(), start: s, end: e, incl: false, svar: None, evar: None, body });
             }
         }
     }
@@ -268,10 +289,10 @@ fn exhaustive_small(ctx: &mut Ctx) {
     let mut outer: Vec<Block> = Vec::new();
     for &(s, e) in &ranges {
         for a in 0..items.len() {
-            outer.push(Block::Loop { var: "i".into(), start: s, end: e, incl: e > s && (s + e) % 2 == 0, body: items[a].clone() });
+            outer.push(Block::Loop { var: "i".into(), start: s, end: e, incl: e > s && (s + e) % 2 == 0, svar: None, evar: None, body: items[a].clone() });
             for b in 0..items.len() {
                 let mut body = items[a].clone(); body.extend(items[b].clone());
-                outer.push(Block::Loop { var: "i".into(), start: s, end: e, incl: false, body });
+                outer.push(Block::Loop { var: "i".into(), start: s, end: e, incl: false, svar: None, evar: None, body });
             }
         }
     }
@@ -298,13 +319,25 @@ pub fn run(ctx: &mut Ctx, _name: &str) {
     // fixed witnesses first (the documented examples of expand.rs and the shapes of DESIGN.md Appendix A)
     ctx.directive("new witnesses");
     let w = vec![
-        Block::Loop { var: "i".into(), start: 0, end: 3, incl: false, body: vec![Block::Line("stream S{i} = T .where(x == {i}) .emit(v: x)".into())] },
+        Block::Loop { var: "i".into(), start: 0, end: 3, incl: false, svar: None, evar: None, body: vec![Block::Line("stream S{i} = T .where(x == {i}) .emit(v: x)".into())] },
         Block::Line("stream Z = T".into()),
-        Block::Loop { var: "r".into(), start: 0, end: 2, incl: true, body: vec![
-            Block::Loop { var: "c".into(), start: -1, end: 1, incl: false, body: vec![Block::Line("context t{r}x{c}".into())] },
+        Block::Loop { var: "r".into(), start: 0, end: 2, incl: true, svar: None, evar: None, body: vec![
+            Block::Loop { var: "c".into(), start: -1, end: 1, incl: false, svar: None, evar: None, body: vec![Block::Line("context t{r}x{c}".into())] },
             Block::Line("context row{r}".into()) ] },
     ];
     run_h(ctx, 4, &w);
+    // a range that runs backwards stands for no copies; an inner bound that is the outer placeholder
+    ctx.directive("new witnesses2");
+    run_h(ctx, 4, &[
+        Block::Loop { var: "i".into(), start: 5, end: 2, incl: false, svar: None, evar: None, body: vec![Block::Line("stream R{i} = T".into())] },
+        Block::Line("stream Z1 = T".into()),
+    ]);
+    ctx.directive("new witnesses3");
+    run_h(ctx, 4, &[
+        Block::Loop { var: "r".into(), start: 1, end: 3, incl: false, svar: None, evar: None, body: vec![
+            Block::Loop { var: "c".into(), start: 0, end: 0, incl: false, svar: None, evar: Some("r".into()), body: vec![Block::Line("context t{r}_{c}".into())] } ] },
+        Block::Line("stream Z2 = T".into()),
+    ]);
     let nh = if ctx.thorough { 6000 } else { 500 };
     for it in 0..nh {
         ctx.directive(&format!("new h{}", it));
@@ -318,7 +351,7 @@ pub fn run(ctx: &mut Ctx, _name: &str) {
     for d in [8usize, 9, 10, 11] {
         ctx.directive(&format!("new deep{}", d));
         let mut b = vec![Block::Line("context deep{v0}".into())];
-        for k in (0..d).rev() { b = vec![Block::Loop { var: format!("v{}", k), start: 0, end: if k == 0 { 2 } else { 1 }, incl: false, body: b }]; }
+        for k in (0..d).rev() { b = vec![Block::Loop { var: format!("v{}", k), start: 0, end: if k == 0 { 2 } else { 1 }, incl: false, svar: None, evar: None, body: b }]; }
         run_h(ctx, 1, &b);
     }
     if ctx.thorough { exhaustive_small(ctx); }
